@@ -60,12 +60,17 @@ PROPS["C10"] = {
 ST_ALU = ("emulator-2a-lib/src/machine/alu.rs", "st_alu.rs", "verif_st_alu")
 ST_RAW = ("emulator-2a-lib/src/machine/raw/mod.rs", "st_raw.rs", "verif_st_raw")
 ST_ALL = [ST_ALU, ST_BOARD, ST_BUS, ST_RAW]
+ST_MACHINE = ("emulator-2a-lib/src/machine/mod.rs", "st_machine.rs", "verif_st_machine")
 
 PROPS["C13"] = {
-    "inject": ST_ALL + [("emulator-2a-lib/src/machine/raw/mod.rs", "c13_raw.rs", "verif_c13")],
+    "inject": ST_ALL + [ST_MACHINE, ("emulator-2a-lib/src/machine/raw/mod.rs", "c13_raw.rs", "verif_c13"),
+                        ("emulator-2a-lib/src/machine/raw/mod.rs", "c05_raw.rs", "verif_c05"),
+                        ("emulator-2a-lib/src/machine/mod.rs", "c05_machine.rs", "verif_c05m")],
+    "select": lambda allh, tier, seed: [h for h in allh if h.startswith("c13_") or h in ("c05_setters_leave_halt", "c05_load_establishes")],
     "functions": ["RawMachine::trigger_clock_edge", "RawMachine::trigger_key_edge_interrupt", "RawMachine::trigger_key_continue",
                   "RawMachine::cpu_reset", "RawMachine::master_reset", "RawMachine::set_stacksize", "RawMachine::set_programsize",
-                  "RawMachine::is_stackpointer_valid", "RawMachine::is_program_counter_valid", "Signals::* (all decoders)"],
+                  "RawMachine::is_stackpointer_valid", "RawMachine::is_program_counter_valid", "Signals::* (all decoders)",
+                  "Machine::set_* (13 setters, f32 arguments over all bit patterns incl. NaN/inf)", "Bus::read / Bus::write at symbolic addresses (through the edge and the getters)"],
     "timeout": 900,
     "technique": "representation invariant wf preserved + Kani's panic/overflow/bounds obligations on every public mutator from an arbitrary wf state (inductive invariant), Kani/CBMC",
     "level_text": "Proof: for every public mutator op and every invariant-satisfying machine state (all fields symbolic), op returns normally and re-establishes the invariant; with the base case (power-on state) this covers every RAM image, limit setting and interleaving by induction.",
@@ -75,7 +80,6 @@ PROPS["C13"] = {
     "assumptions": ["wf includes 'stack size != NotSet' (established by RawMachine::new and kept by Machine::load) and 'level-interrupt latch empty' (no level source exists in the bus)"],
 }
 
-ST_MACHINE = ("emulator-2a-lib/src/machine/mod.rs", "st_machine.rs", "verif_st_machine")
 
 PROPS["C05"] = {
     "inject": ST_ALL + [ST_MACHINE, ("emulator-2a-lib/src/machine/raw/mod.rs", "c05_raw.rs", "verif_c05"),
@@ -104,7 +108,7 @@ PROPS["C07"] = {
     "timeout": 900,
     "technique": "postcondition + frame contracts on each reset/load function from an arbitrary (fully symbolic, not only invariant-satisfying) pre-state, Kani/CBMC",
     "level_text": "Proof: each reset function's postcondition (documented fields at power-on values, documented frame bit-identical) is discharged from every possible pre-state, so it holds after any history; load = master reset + RAM image + limits.",
-    "level_note": "Trusted: Kani/CBMC, rustc. MISR, UART bytes, DAISR and the non-jumper DASR bits are not named by the statement and left unconstrained. R.load is BOUNDED in the image length (<= 6 symbolic bytes over 3 lines). The 'runs cycle-for-cycle as on a new machine' consequence rests on the edge being a function of the CPU projection (argued, see DESIGN).",
+    "level_note": "Trusted: Kani/CBMC, rustc. MISR, UART bytes, DAISR and the non-jumper DASR bits are not named by the statement and left unconstrained. R.load is BOUNDED in the image length (<= 6 symbolic bytes over 3 lines). The 'runs cycle-for-cycle as on a new machine' consequence rests on the edge being a function of the CPU projection: proved as a 2-safety obligation on the real edge in the thorough tier (c07_x_edge_independent_of_board); the induction over edges is argued.",
     "bounded": ["c07_load: image length <= 6 bytes over three lines (unwind 10); the fill loop is uniform in the address"],
     "samples": [{"obligation": "C07.R.master.bus-and-board", "text": "master_reset: inputs/timer/outputs/MICR/UCR power-on, board outputs/DAICR/fan/UIO directions power-on, RAM and board inputs bit-identical", "domain": "every field of RawMachine symbolic incl. all f32 bit patterns"}],
     "trusted": [],
@@ -200,6 +204,7 @@ def _pregen_c01(stage, native_run, extra=()):
 PROPS["C01"] = {
     "inject": C01_INJECT,
     "pregen": _pregen_c01,
+    "verus": "lemmas",
     "groups": [{"match": "fetch_words_identical", "flags": []},
                {"match": ".*", "flags": ["-Z", "stubbing", "--no-memory-safety-checks", "--no-overflow-checks"]}],
     "select": lambda allh, tier, seed: _select_c01(allh, tier, seed),
@@ -291,8 +296,25 @@ PROPS["C11"] = {
     "assumptions": [],
 }
 
+C02_QUICK = ["c02_p_clr", "c02_p_add", "c02_p_sub", "c02_p_mul", "c02_p_xor", "c02_p_neg", "c02_p_lsl", "c02_p_rlc", "c02_p_rrc", "c02_p_pop", "c02_p_ret", "c02_p_reti",
+             "c02_p_stop", "c02_p_di", "c02_p_jmp", "c02_p_jr", "c02_p_jzc", "c02_p_call", "c02_p_dec", "c02_p_dec_inc", "c02_p_dec_const", "c02_p_dec_abs",
+             "c02_d_org", "c02_d_byte", "c02_d_stacksize", "c02_d_programsize", "c02_e_mov_0_0", "c02_e_mov_3_5", "c02_e_ds_1_4", "c02_e_ds_4_0", "c02_e_s_4",
+             "c02_field_encoders", "c02_canary"]
+
+
+def _select_c02(allh, tier, seed):
+    if tier != "quick":
+        return allh
+    import random
+    core = [h for h in allh if h in C02_QUICK]
+    rest = [h for h in allh if h not in C02_QUICK]
+    random.Random(seed).shuffle(rest)
+    return core + rest[:6]
+
+
 PROPS["C02"] = {
     "inject": [("emulator-2a-lib/src/compiler.rs", "c02_translator.rs", "verif_c02")],
+    "select": _select_c02,
     "groups": [{"match": ".*", "flags": ["-Z", "stubbing"]}],
     "functions": ["Translator::push_instruction", "Translator::push", "Translator::finish", "compile_instruction_mov", "from_bases_dst_and_src", "from_bases_and_src",
                   "from_base_and_reg", "from_base_and_two_regs", "relative_jump (incl. the returned closure)", "source_addr_mode / source_register / destination_addr_mode / destination_register / reg_to_u8"],
